@@ -641,6 +641,15 @@ def annotate(repo, contracts, out, vacuity=False, demote=()):
                 f = cur.fn(m.group(1).strip())
                 a, _ = cur.body_range(f)
                 text, orig = payload_text(d, clauses, cur.last_rename if cur is not None else None)
+                mr = re.search(r'@REVEAL_LITERALS\((.*?)\)@', text)
+                if mr:
+                    # contents of the listed specification literals and of every short string literal in the body, so that
+                    # text equalities are decided by content, not by how the code splits its constant pieces
+                    lits = re.findall(r'"(?:[^"\\]|\\.)*"', mr.group(1))
+                    for t in cur.toks[f.body_open:f.body_close]:
+                        if t.kind == 'str' and t.text.startswith('"') and len(t.text) <= 42 and '{' not in t.text and t.text not in lits:
+                            lits.append(t.text)
+                    text = text.replace(mr.group(0), ' '.join('reveal_strlit(%s);' % l for l in lits))
                 cur.add(a, a, '\n' + text, orig)
                 continue
             m = re.match(r'underscore-params\s+(.+)$', head)
